@@ -306,6 +306,9 @@ class Logic:
             # axioms are closed over them
             F = z3.Function(nm, *([p.sort() for p in params] + [self.Node, self.Node]), self.B)
             C = lambda a, b: F(*params, a, b)
+            if not hasattr(self, "param_closures"):
+                self.param_closures = []
+            self.param_closures.append((nm, F, params, R))
         else:
             C = z3.Function(nm, self.Node, self.Node, self.B)
         ax = [
